@@ -52,6 +52,15 @@ def gen_coll_ref(rng, name):
     c.graphs["main"] = [S("a", "csrc", shape=sh, uid=1), S("b", "csrc", shape=sh, uid=2), S("c", "src", uid=3, mode=0),
                         S("r", "ite", "c", "a", "b", uid=4), S("", "cmirror", "r", uid=10),
                         S("", "cmirror", "a", uid=11), S("", "cmirror", "b", uid=12)]
+    if sh == "tsd" and rng.random() < 0.6:
+        # the reference handed into sub-graphs (inline, nested, nested twice) that read the dictionary's KEY SET (keys_) and the
+        # dictionary itself: cross-boundary retarget notifications
+        readers = []
+        for j, nest in enumerate(rng.sample([0, 1, 2], rng.choice([1, 2, 3]))):
+            u = 20 + 2 * j
+            c.graphs["main"].append(S(f"ks{j}", "nkeys", "r", uid=u, nest=nest))
+            readers.append([u, nest])
+        c.meta["key_readers"] = readers
     return c
 
 
@@ -204,9 +213,47 @@ def check_coll(case, tr):
             if (gadd, grem) != (set(eadd), set(erem)):
                 V.append(f"t={t}: delta read through the reference +{sorted(gadd, key=str)} -{sorted(grem, key=str)} != the target's own delta "
                          f"+{sorted(eadd, key=str)} -{sorted(erem, key=str)}")
+    # key-set readers inside sub-graphs (inline / nested): whenever the key set read through the reference changes - the selected
+    # target's own key delta, or the difference between the old and the new target on a retarget - the reader ticks with exactly
+    # that delta and the right key set; the dictionary mirror next to it reads the selected target's value whenever it ticks
+    nested_key_checks = 0
+    if case.meta.get("key_readers") and not V:
+        nodes2 = {u: Node(SHAPES[case.meta["shape"]]) for u in (1, 2)}
+        for u_reader, nest in case.meta["key_readers"]:
+            ks = {t: d for t, d, _ in dumps.get(u_reader, [])}
+            dm = {t: d for t, d, _ in dumps.get(u_reader + 1, [])}
+            nodes2 = {u: Node(SHAPES[case.meta["shape"]]) for u in (1, 2)}
+            sel2, prev_keys = None, None
+            for t in range(case.start, case.end):
+                for u in (1, 2):
+                    for op in wl[u].get(t, []):
+                        nodes2[u].apply(op, t)
+                if t in cond:
+                    sel2 = 1 if cond[t] != 0 else 2
+                if sel2 is None:
+                    continue
+                keys = set(nodes2[sel2].value())
+                if prev_keys is not None and keys != prev_keys:
+                    nested_key_checks += 1
+                    eadd, erem = keys - prev_keys, prev_keys - keys
+                    d = ks.get(t)
+                    if d is None:
+                        V.append(f"t={t}: key-set reader uid {u_reader} (nesting depth {nest}) was not evaluated although the key set read through "
+                                 f"the reference changed (+{sorted(eadd)} -{sorted(erem)})")
+                    else:
+                        gadd, grem = set(_key(x) for x in d["add"]), set(_key(x) for x in d["rem"])
+                        if (gadd, grem) != (eadd, erem):
+                            V.append(f"t={t}: key-set reader uid {u_reader} (nesting depth {nest}) saw +{sorted(gadd)} -{sorted(grem)}, the key set "
+                                     f"read through the reference changed by +{sorted(eadd)} -{sorted(erem)}")
+                        elif set(_key(x) for x in dump_value(d)) != keys:
+                            V.append(f"t={t}: key-set reader uid {u_reader} reads {sorted(dump_value(d))[:8]}, the selected target's keys are {sorted(keys)[:8]}")
+                if t in dm and dump_value(dm[t]) != nodes2[sel2].value():
+                    V.append(f"t={t}: dictionary reader uid {u_reader + 1} (nesting depth {nest}) reads {str(dump_value(dm[t]))[:80]} != selected "
+                             f"target's value {str(nodes2[sel2].value())[:80]}")
+                prev_keys = keys
     for m in V[:5]:
         res.violations.append(Violation(m))
-    res.counters = {"coll_ref_retargets": retargets, "coll_ref_target_ticks": target_ticks, "coll_ref_unselected_ticks": unselected,
+    res.counters = {"nested_key_set_changes_checked": nested_key_checks, "coll_ref_retargets": retargets, "coll_ref_target_ticks": target_ticks, "coll_ref_unselected_ticks": unselected,
                     "coll_ref_republished_same": same, "coll_ref_retarget_while_old_target_removes": old_removes}
     res.nontrivial = retargets >= 2
     return res
